@@ -35,6 +35,36 @@ pub fn well_formed(out: &solve::Out, iters: u64) -> Result<(), (String, String)>
     Ok(())
 }
 
+/// Payoffs of magnitude 1e305..1.5e308 (finite, so the games are accepted): every method must
+/// still return a well-formed result or a documented error.
+fn huge_payoffs(ctx: &mut Ctx, idx: u64, rng: &mut Rng) {
+    let big = *rng.pick(&[1e305, 4e307, 1.5e308]);
+    let y = |v: [f64; 2]| gen::player(1, "y0", (0..2).map(|i| (format!("a{}", i), gen::term(v[i] * big))).collect());
+    let (desc, tree) = match rng.below(3) {
+        0 => ("pennies", gen::player(0, "x0", vec![("a0".into(), y([1.0, -1.0])), ("a1".into(), y([-1.0, 1.0]))])),
+        1 => ("chance-pennies", gen::chance(None, vec![(1.0, gen::player(0, "x0", vec![("a0".into(), y([1.0, -1.0])), ("a1".into(), y([-1.0, 1.0]))])), (1.0, gen::term(big))])),
+        _ => ("solo", gen::player(0, "x0", vec![("a0".into(), gen::term(big)), ("a1".into(), gen::term(-big)), ("a2".into(), gen::term(big / 2.0))])),
+    };
+    let Ok(prep) = Prepared::new(&tree) else {
+        ctx.inconclusive("huge-payoff-game-rejected");
+        return;
+    };
+    let method = gen::METHODS[rng.below(3)];
+    let params = *rng.pick(&[ParamSpec::None, ParamSpec::Vanilla, ParamSpec::CfrPlus, ParamSpec::Dcfr]);
+    let cfg = Cfg { method, iters: *rng.pick(&[1u64, 2, 20, 200]), max_reg: 0.0, threads: *rng.pick(&[1usize, 2]), params };
+    ctx.mark(idx, &cfg.describe());
+    ctx.count("huge-payoff-solves(1e305..1.5e308)", 1);
+    let detail = || json!({"game": tree.to_json(), "cfg": cfg.describe(), "desc": desc, "payoff_magnitude": big});
+    match solve::run(&prep, &cfg, None) {
+        Outcome::Panic(msg) => ctx.violation(idx, "C05:huge-payoffs:panic", &format!("{} panicked on {} with payoffs of magnitude {:e} (finite, accepted): {}", cfg.describe(), desc, big, msg), detail()),
+        Outcome::Err(_) => ctx.inconclusive("thread-spawn-error"),
+        Outcome::Ok(out) => match well_formed(&out, if cfg.iters == 0 { 0 } else { 1 }) {
+            Ok(()) => ctx.ok(mix(tree.structural_hash() ^ crate::rng::hash_str(&cfg.describe())), true),
+            Err((sig, msg)) => ctx.violation(idx, "C05:huge-payoffs:malformed-result", &format!("{} on {} with payoffs of magnitude {:e}: {} ({})", cfg.describe(), desc, big, msg, sig), detail()),
+        },
+    }
+}
+
 pub fn pick_threads(rng: &mut Rng) -> usize {
     *rng.pick(&[1usize, 1, 1, 2, 2, 3, 4, 8, 16, 64, 0, usize::MAX / 3 + 1, usize::MAX])
 }
@@ -43,6 +73,12 @@ pub fn run(ctx: &mut Ctx) {
     let quick = ctx.quick();
     let n = if quick { 30_000 } else { 1_500_000 };
     ctx.run_cases(n, |ctx, idx, rng| {
+        // a thin slice with payoffs within a factor of a thousand of f64::MAX: finite, accepted, and
+        // large enough for sums of a few regrets to overflow. Judged under signatures of its own.
+        if idx % 503 == 11 {
+            huge_payoffs(ctx, idx, rng);
+            return;
+        }
         let size = *rng.pick(&[0usize, 0, 1, 1, 2, 2]);
         // fan shapes are sized against a thread count (see c06.rs): k < 3 x threads root actions
         let mut fan_threads: Option<usize> = None;
